@@ -20,9 +20,11 @@ Open Scope list_scope.
 """
 
 RULE = ("one case = one operation sequence on one reference/target pair: reference of 3..12 atoms (random trees, cyclic "
-        "graphs, chains, stars; 1..3 residues), target of 1..20 atoms (1..3 residues, with/without velocities), scale in "
-        "(0,2]; handles: 2..5 arguments (copy()/deep_copy() of the reference after a rigid motion, a deformation or a new "
-        "random conformation, with their own gro residue numbers), the construction molecules themselves, 1..3 molecules "
+        "graphs, chains, stars; 1..3 residues; geometry: 55% generic, 15% rod = all atoms on a lattice line on a dyadic grid, "
+        "15% one or two anchors exactly collinear with their two lowest-index bonded neighbours, 15% collinear only in the "
+        "arguments - the aligned branch of calcule_base), target of 1..20 atoms (1..3 residues, with/without velocities), scale in "
+        "(0,2]; handles: 2..5 arguments (copy()/deep_copy() of the reference after a rigid motion, a dyadic translation, an "
+        "axis permutation, a deformation or a new random conformation, with their own gro residue numbers), the construction molecules themselves, 1..3 molecules "
         "of other species (other name, other atom name, other length, the target), every returned molecule; operations: "
         "call on a valid argument (repeats included), call on another species, call on a non-molecule, in-place coordinate "
         "changes of the construction reference / target / an argument / a previously returned molecule. K only: same-name "
@@ -543,7 +545,8 @@ def run_K_case(spec, rs, n_ops):
     refrec, tgtrec, objrecs, heap0 = pre["ref"], pre["tgt"], pre["objs"], pre["heap"]
     bg, bt = ho.delta_terms()            # what the construction of the map did to the heap (nothing, in the model)
     n_tgt = len(ses.tgt)
-    stats = {"calls_ok": 0, "rejected": 0, "valueerror": 0, "pokes": 0, "between": False, "nonfinite": False}
+    stats = {"calls_ok": 0, "rejected": 0, "valueerror": 0, "pokes": 0, "between": False, "nonfinite": False,
+             "collinear_calls": 0, "collinear_build": int(bool(ses.collinear_at_build))}
     if ses.build_exc is not None:
         term = "chk_c04 %s %s %s (%s) (%s) (Some %s) [] [] [] [] [] []" % (
             fl(spec["scale"]), heap0, lib.coq_list(["(%s)" % r for r in objrecs]), refrec, tgtrec,
@@ -596,6 +599,7 @@ def run_K_case(spec, rs, n_ops):
             break
     if generate:
         spec["ops"] = ops
+    stats["collinear_calls"] = ses.collinear_calls
     term = "chk_c04 %s %s %s (%s) (%s) None %s %s %s %s %s %s" % (
         fl(spec["scale"]), heap0, lib.coq_list(["(%s)" % r for r in objrecs]), refrec, tgtrec, bg, bt,
         natlist(keys0), natlist(eq0), lib.coq_list(["(%s)" % op_term(o) for o in ops], sep=";\n      "),
@@ -619,7 +623,8 @@ def oracle_sequence(spec, gen=None):
     pre = []
     ses = Session(spec, lambda ses_: pre.extend((lab, m, coords(m)) for lab, m in ses_.live()))
     bad = []
-    stats = {"calls_ok": 0, "rejected": 0, "skipped": 0, "pokes": 0, "between": False}
+    stats = {"calls_ok": 0, "rejected": 0, "skipped": 0, "pokes": 0, "between": False,
+             "collinear_calls": 0, "collinear_build": int(bool(ses.collinear_at_build))}
     if ses.build_exc is not None:
         return ["construction raised %r" % ses.build_exc], stats
     for lab, m, c0 in pre:
@@ -709,6 +714,7 @@ def oracle_sequence(spec, gen=None):
             break
     if generate:
         spec["ops"] = ops
+    stats["collinear_calls"] = ses.collinear_calls
     return bad, stats
 
 
@@ -785,6 +791,26 @@ def corpus(ctx):
                           key="sequence")
 
 
+def run_cases_robust(ctx, cases, shard):
+    """lib.run_coq_cases, repeated with fewer parallel coqc processes when a shard was killed from outside (SIGKILL by the
+    kernel's out-of-memory handler on a machine shared with other builds; one shard needs < 0.5 GB and a few seconds).
+    A deterministic Coq error fails all three attempts and is reported as before."""
+    import time
+    log = ""
+    for attempt, jobs in enumerate((16, 5, 2)):
+        if attempt:
+            time.sleep(15 * attempt)
+        codes, log1 = lib.run_coq_cases(ctx.cid, "K", HEADER, cases, shard=shard, jobs=jobs)
+        log += ("" if not log else "\n-- retry with %d jobs --\n" % jobs) + log1
+        if codes is not None:
+            if attempt:
+                ctx.notes.append("K: coqc shards were killed externally; succeeded on attempt %d" % (attempt + 1))
+            return codes, log1
+        if "Killed" not in log1 and "TIMEOUT" not in log1 and "Terminated" not in log1:
+            break
+    return None, log
+
+
 def hist_add(h, k, n=1):
     h[k] = h.get(k, 0) + n
 
@@ -796,7 +822,7 @@ def correspondence(ctx):
     cases, metas = [], []
     hist = {}
     K = ctx.cov["K"]
-    tot = {"calls_ok": 0, "rejected": 0, "valueerror": 0, "pokes": 0}
+    tot = {"calls_ok": 0, "rejected": 0, "valueerror": 0, "pokes": 0, "collinear_calls": 0, "collinear_build": 0}
     specs = [json.loads(json.dumps(s)) for s in corpus_specs()]
     for k in range(n_cases + n_long):
         specs.append(gen_static(rs, k, k_only=True))
@@ -824,11 +850,13 @@ def correspondence(ctx):
             ctx.sample({"layer": "K", "n_ref": len(spec["ref"]["atoms"]), "n_objs": len(spec["objs"]),
                         "ops": spec["ops"][:12], "stats": stats})
     shard = 6 if not n_long else 4
-    codes, log = lib.run_coq_cases(ctx.cid, "K", HEADER, cases, shard=shard)
+    codes, log = run_cases_robust(ctx, cases, shard)
     K["cases"] = len(cases)
     K["operations"] = sum(len(s["ops"]) for s in specs)
     K.update({"calls_returning_a_molecule": tot["calls_ok"], "calls_rejected_TypeError": tot["rejected"],
-              "calls_ValueError": tot["valueerror"], "coordinate_mutations": tot["pokes"]})
+              "calls_ValueError": tot["valueerror"], "coordinate_mutations": tot["pokes"],
+              "calls_on_argument_with_collinear_anchor": tot["collinear_calls"],
+              "maps_built_on_reference_with_collinear_anchor": tot["collinear_build"]})
     K["input_distribution"] = hist
     K["log"] = log
     if codes is None:
@@ -852,7 +880,7 @@ def oracle(ctx, scale):
     S = ctx.cov["S"]
     n = ctx.n(150, 1500) * scale
     fails = 0
-    tot = {"calls_ok": 0, "rejected": 0, "skipped": 0, "pokes": 0}
+    tot = {"calls_ok": 0, "rejected": 0, "skipped": 0, "pokes": 0, "collinear_calls": 0, "collinear_build": 0}
     hist = {}
     for k in range(n):
         spec = gen_static(rs, 1000 + k, k_only=False)
@@ -877,6 +905,9 @@ def oracle(ctx, scale):
     S["rejections_checked"] = S.get("rejections_checked", 0) + tot["rejected"]
     S["calls_outside_domain_residue_count"] = S.get("calls_outside_domain_residue_count", 0) + tot["skipped"]
     S["coordinate_mutations"] = S.get("coordinate_mutations", 0) + tot["pokes"]
+    S["calls_on_argument_with_collinear_anchor"] = S.get("calls_on_argument_with_collinear_anchor", 0) + tot["collinear_calls"]
+    S["maps_built_on_reference_with_collinear_anchor"] = (S.get("maps_built_on_reference_with_collinear_anchor", 0) +
+                                                          tot["collinear_build"])
     S["input_distribution"] = hist
     S["failures"] = S.get("failures", 0) + fails
 
